@@ -422,6 +422,10 @@ class FileStorage(
         checked = 0
 
         while checked < max_checked:
+            if pos < 12:
+                # Reached the start of the file: only empty or undone
+                # transactions, nothing to check the index against.
+                return 0
             self._file.seek(pos - 8)
             rstl = self._file.read(8)
             tl = u64(rstl)
